@@ -102,7 +102,7 @@ def run_case(ctx, rng, idx):
         for force in ((50, "edge", True), (200, "stub", True), (200, "edge", True)):
             undirected(ctx, rng, idx, hb, [tuple(e) for e in hb.get_edges()], phase=1, force=force)
         return
-    if ctx.tier == "thorough" and idx % 30000 == 21:
+    if idx == 6 or (ctx.tier == "thorough" and idx % 30000 == 21):
         import hypergraphx as hgx
 
         ctx.event("300-pairwise-different-sizes")
